@@ -10,7 +10,10 @@
 use std::path::Path;
 
 /// rows per table / cells per row / max bytes of a blob cell
+#[cfg(feature = "rows4")]
 pub const NR: usize = 4;
+#[cfg(not(feature = "rows4"))]
+pub const NR: usize = 3;
 pub const NC: usize = 6;
 pub const BL: usize = 2;
 pub const MAXCONN: usize = 4;
